@@ -11,4 +11,4 @@ Extraction "model.ml" run_mapper mapper_source_map encode_vlq decode_vlq decode_
   parse_tokens pb_run pbuilder_new pb_build apply_tok_ics register_token_type lbuilder_new
   compile cfg_compact cfg_pretty debug_to_string_stmt debug_to_string_expr run_wops wstate_init wstep
   current_context is_in_function m_program wf_program cfg_default mapper_source_map
-  printable lexical first_type reparse_compact expr_program shape_program groupify strip_groups_stmt m_programL wf_programL token_preserving wops_text toks_text write_program code_tokens tmap_program erase_comments wops_bytes nolayout segments_link idents_covered nesting_reflected cfg_with nest_program reparse literals_trim_safe strings_stable m_programM boundary_trivia norm_boundaries.
+  printable lexical first_type reparse_compact expr_program shape_program groupify strip_groups_stmt m_programL wf_programL token_preserving wops_text toks_text write_program code_tokens tmap_program erase_comments wops_bytes nolayout segments_link idents_covered nesting_reflected cfg_with nest_program reparse literals_trim_safe strings_stable m_programM boundary_trivia norm_boundaries tmap_expr.
